@@ -86,6 +86,10 @@ def harness(c, cfg):
                     c.prove_eq("C14:short-liquidates-at-ask", lq, m["ask"])
                 else:
                     c.prove_eq("C14:flat-at-mid", px, (m["bid"] + m["ask"]) / 2)
+                    c.prove_eq("C14:flat-liquidates-at-mid", lq, (m["bid"] + m["ask"]) / 2)
+                zero = book.liq_price(0.0)
+                c.prove_eq("C14:flat-liquidates-at-mid", zero, (m["bid"] + m["ask"]) / 2)
+                c.prove_eq("C14:flat-at-mid", book.acq_price(0), (m["bid"] + m["ask"]) / 2)
                 c.prove_eq("C14:mid-price", book.mid_price, (m["bid"] + m["ask"]) / 2)
                 c.prove_eq("C14:spread", book.spread, m["ask"] - m["bid"])
         # ---- symbol / string keys address the same book
